@@ -31,6 +31,9 @@ def plan(tier, seed):
     specs = []
     for _ in range(8 if q else 20):
         specs.append({"kind": "ref", "count": 150 if q else 1200})
+    for tz in ("Asia/Tokyo", "Pacific/Kiritimati", "America/Los_Angeles", "JST-9"):
+        specs.append({"kind": "ref", "count": 60 if q else 500, "env": {"TZ": tz}})
+        specs.append({"kind": "gnupg", "count": 3 if q else 20, "genkeys": 0, "shim": True, "env": {"TZ": tz}})
     for _ in range(2 if q else 10):
         specs.append({"kind": "bitsweep", "count": 1 if q else 2, "full": not q})
     specs.append({"kind": "envelope", "count": 200 if q else 4000})
@@ -72,9 +75,14 @@ def make_case(rng, tier):
     if rng.random() < 0.35:
         # canonical JSON text as payload (LF line ends, as every real payload has)
         data = canonjson.canon(jsonvals.rand_value(rng, 0, 3, 3) if dl < 2000 else {"k": ["v"] * (dl // 12)})
-    style = rng.choice(["gnupg", "gnupg_sigtype", "gnupg_sigtype", "v4prefix", "random", "long"])
+    style = rng.choice(["gnupg", "gnupg_now", "gnupg_sigtype", "gnupg_sigtype", "v4prefix", "random", "long"])
     if style == "gnupg":
         hdr = openpgp.gnupg_style_header(rng.randbytes(20), rng.randrange(2**32))
+    elif style == "gnupg_now":
+        import time as _time
+
+        # creation time around "now" (as every freshly made signature has), a little in the past or the future
+        hdr = openpgp.gnupg_style_header(rng.randbytes(20), int(_time.time()) + rng.choice([-86400, -3600, -1, 0, 1, 3600, 86400, 10**7]))
     elif style == "gnupg_sigtype":
         # same layout as GnuPG writes, other signature type / algorithm bytes (text-mode 0x01, standalone 0x02, certifications ...)
         h = bytearray(openpgp.gnupg_style_header(rng.randbytes(20), rng.randrange(2**32)))
